@@ -51,6 +51,7 @@ pub fn suites() -> Vec<(&'static str, Suite)> {
         ("tiles", c01::run_tiles as Suite),
         ("stroke_geo", c05::run_stroke_geo as Suite),
         ("gather", c16::run_gather as Suite),
+        ("nearest_map", c16::run_nearest_map as Suite),
         ("stroker_hist", c20::run_stroker_hist as Suite),
         ("draw_hist", c20::run_draw_hist as Suite),
     ]
